@@ -18,6 +18,7 @@ var (
 	flagShard  = flag.Int("shard", 0, "shard number (names the output files)")
 	flagReplay = flag.String("replay", "", "replay file (JSON case) to execute instead of searching")
 	flagReps   = flag.Int("reps", 1, "executions per generated case")
+	flagStress = flag.Int("stress", 2000, "TestStress: executions per generated case")
 )
 
 // caseLog is the per-run evidence log: one JSON line per executed case.
